@@ -88,10 +88,10 @@ theorem ctl_simple (cx : Cx) (fuel : Nat) (env : Src.Env) (he : EnvOK cx env) (n
     (hn : nameOK nm = true) (hf : Beh.endsFlow nm = true) (hnm : nm = sn)
     (htr : ∀ k b, Src.tr fuel [] env st k b = b.push (.halt ⟨sn, []⟩)) {s : St} {items : List LItem} {s' : St}
     (h : opStmt nm [] s = .ok (items, s')) :
-    SimpleOK cx items (fun k b => Src.tr fuel [] env st k b) ∧ s'.loops = s.loops ∧ s'.cases = s.cases := by
+    SimpleOK cx items (fun k b => Src.tr fuel [] env st k b) ∧ SameStk s s' := by
   subst hnm
-  obtain ⟨a, b, c⟩ := op_simple cx fuel nm [] hn h env he
-  refine ⟨simpleOK_congr a (fun k b => ?_), b, c⟩
+  obtain ⟨a, b⟩ := op_simple cx fuel nm [] hn h env he
+  refine ⟨simpleOK_congr a (fun k b => ?_), b⟩
   rw [htr, Src.tr]
   simp [hf, he.1, substEv_nil, convParams]
 
@@ -102,9 +102,9 @@ theorem ctx_pm (cx : Cx) (fuel : Nat) (env : Src.Env) (he : EnvOK cx env) (c : S
     {mc : M (List LItem)}
     (hmc : ∀ s items s', mc s = .ok (items, s') → ∃ oc oo, items = [.op ⟨oc, c, [cp]⟩, .op ⟨oo, n, ps⟩] ∧ SameStk s s')
     {s : St} {items : List LItem} {s' : St} (h : mc s = .ok (items, s')) :
-    SimpleOK cx items (fun k b => Src.tr fuel [] env (.ctx c [convParam cp] inner) k b) ∧ s'.loops = s.loops ∧ s'.cases = s.cases := by
+    SimpleOK cx items (fun k b => Src.tr fuel [] env (.ctx c [convParam cp] inner) k b) ∧ SameStk s s' := by
   obtain ⟨oc, oo, rfl, hst⟩ := hmc s items s' h
-  refine ⟨ctx_simple cx c cp n ps hc hn oc oo _ (fun k b => ?_), hst.1, hst.2⟩
+  refine ⟨ctx_simple cx c cp n ps hc hn oc oo _ (fun k b => ?_), hst⟩
   rw [Src.tr]
   simp only [hspec, he.1, substEv_nil]
 
@@ -138,7 +138,7 @@ theorem patchNone_if (e : Nat) (c : Bool) (l : List LItem) : patchNone e (if c t
 /-- the statements of F0 never look at the exits -/
 theorem simple_c (cx : Cx) (fuel : Nat) : ∀ (st : Stmt) (lb : Nat), cgSimple st = true → ∀ (env : Src.Env), EnvOK cx env →
     ∀ (s : St) (items : List LItem) (s' : St), cStmt [] lb st s = .ok (items, s') →
-    SimpleOK cx items (fun k b => Src.tr fuel [] env (toSrcStmt st) k b) ∧ s'.loops = s.loops ∧ s'.cases = s.cases
+    SimpleOK cx items (fun k b => Src.tr fuel [] env (toSrcStmt st) k b) ∧ SameStk s s'
   | .op n ps, lb, hg, env, he => by
     intro s items s' h
     simp only [cStmt, toSrcStmt] at h ⊢
@@ -198,7 +198,7 @@ theorem simple_c (cx : Cx) (fuel : Nat) : ∀ (st : Stmt) (lb : Nat), cgSimple s
 theorem simple_pm (cx : Cx) (fuel : Nat) (st : Stmt) (lb : Nat) (hg : cgSimple st = true) (env : Src.Env) (he : EnvOK cx env) :
     PM cx (cStmt [] lb st) (fun k b => Src.tr fuel [] env (toSrcStmt st) k b) env := by
   intro s items s' h
-  obtain ⟨a, b, c⟩ := simple_c cx fuel st lb hg env he s items s' h
-  exact a.piece b c env
+  obtain ⟨a, b⟩ := simple_c cx fuel st lb hg env he s items s' h
+  exact a.piece b env
 
 end ESV.Comp
